@@ -66,7 +66,7 @@ static void check_projection(Ctx& ctx, const Ell& E, const Under& U, const Oracl
   // (documented only as "reasonably accurate" for |f| <= 0.1; larger |f| "verify independently")
   const Q ULPS = fabsq(E.f) <= 0.0100001Q ? 16 : 64;
   const bool clean_obj = U.defect.empty();          // per-predicate worst cases are recorded only for objects without a known defect
-  // Math::tauf on prolate ellipsoids (known finding): Reverse errors up to about a (2.2 |e^2|)^6 (for |e^2| > 0.45 the iteration does not converge at all)
+  // Math::tauf on prolate ellipsoids (defect found by this check, repaired in /repo, kept as a recognised class): Reverse errors up to about a (2.2 |e^2|)^6
   const Q tauf_gross = fam.prolate ? (2.2Q * fabsq(E.e2) < 0.9Q ? 4 * E.a * powq(2.2Q * fabsq(E.e2), 6) : HUGE_VALQ) : Q(0);
   for (double lat : A.lats) for (double lon0 : A.lon0s) for (double dnom : A.dlons) {
     if (!U.has_lon0 && lon0 != 0) continue;
@@ -316,7 +316,7 @@ static void sincos_deg(double lat, double& s, double& c) { Q qs, qc; Lat L = pro
 
 struct EllP { const char* name; double a, f; bool quick; };
 static const EllP ELLS[] = {
-  {"WGS84", WGS84_A, WGS84_F, true}, {"sphere", WGS84_A, 0.0, true}, {"f=+0.1", WGS84_A, 0.1, false}, {"f=-0.1", WGS84_A, -0.1, false},
+  {"WGS84", WGS84_A, WGS84_F, true}, {"sphere", WGS84_A, 0.0, true}, {"f=+0.1", WGS84_A, 0.1, false}, {"f=-0.1", WGS84_A, -0.1, true},
   {"f=+0.5,a=1", 1.0, 0.5, true}, {"f=-0.2", WGS84_A, -0.2, false},
 };
 struct Pair { double l1, l2; };
@@ -327,15 +327,16 @@ int main(int argc, char** argv) {
   const std::vector<double> K1 = {1.0, 0.994};
   const std::vector<double> SINGLE = {-90, -60, -1e-9, 0, 1e-9, 45, 89.999, 90};
   const std::vector<Pair> PAIRS = {{30, 60}, {45, 45 + 1e-9}, {45, 45 + 1e-5}, {-30, 30}, {0, 1e-9}, {89, 89.9}, {-60, -20}};
-  const std::vector<double> LATBASE = {-90, -89.999999999, -89, -60, -45, -1, -1e-9, 0, 1e-9, 1, 30, 45, 60, 89, 89.999999999, 90};
-  Axes AX; AX.dlons = {0, 1e-9, 30, 90, 179, 180, -180, -30, -179}; AX.lon0s = {0, -170};
+  // incl. the Math::tauf thresholds: one vs two Newton steps at 3.35 deg, asymptotic start value for |taup| > 70 (lat > 89.18)
+  const std::vector<double> LATBASE = {-90, -89.999999999, -89.5, -89, -60, -45, -4, -1, -1e-9, 0, 1e-9, 1, 3, 30, 45, 60, 75, 89, 89.5, 89.999999999, 90};
+  Axes AX; AX.dlons = {0, 1e-9, 30, 90, 179, 180, -180, -30, -179}; AX.lon0s = {0, -170, 190};
   if (!T) AX.dlons = {0, 1e-9, 30, 179, 180, -180, -30};
-  ctx.bound("ellipsoids", T ? "WGS84, sphere, f=+0.1, f=-0.1, (a=1,f=0.5), f=-0.2" : "WGS84, sphere, (a=1,f=0.5)");
+  ctx.bound("ellipsoids", T ? "WGS84, sphere, f=+0.1, f=-0.1, (a=1,f=0.5), f=-0.2" : "WGS84, sphere, f=-0.1, (a=1,f=0.5)");
   ctx.bound("scales", "k0/k1 in {1, 0.994}; SetScale(lat, k) for lat in the latitude alphabet, k in {1, 0.9}");
   ctx.bound("parallels", "single {-90,-60,-1e-9,0,1e-9,45,89.999,90}; pairs {(30,60),(45,45+1e-9),(45,45+1e-5),(-30,30),(0,1e-9),(89,89.9),(-60,-20)} in both orders; constructor forms: 1-parallel, 2-parallel, sin/cos");
-  ctx.bound("lat", "{+-90, +-(90-1e-9), +-89, -60, -45, -1, +-1e-9, 0, 1, 30, 45, 60} + each standard parallel, the origin latitude and their +-1e-9 neighbours");
+  ctx.bound("lat", "{+-90, +-(90-1e-9), +-89.5, +-89, -60, -45, -4, -1, +-1e-9, 0, 1, 3, 30, 45, 60, 75} + each standard parallel, the origin latitude and their +-1e-9 neighbours");
   ctx.bound("dlon", T ? "{0, 1e-9, 30, 90, 179, 180, -180, -30, -179}" : "{0, 1e-9, 30, 179, 180, -180, -30}");
-  ctx.bound("lon0", "{0, -170}");
+  ctx.bound("lon0", "{0, -170, 190}");
   ctx.bound("oracle", "Snyder closed forms in __float128; Jacobian by central differences (h = 2^-30 rad)");
   ctx.note("tolerances: position 2 x 10 nm ground distance (LambertConformalConic.hpp; the C11 statement extends it to the other two classes); conformal maps: plane distance / k; "
            "Albers: east-west plane error / k, north-south plane error x k; round trips additionally allow 8 ulp of the plane coordinates mapped back to the ground (the inverse is ill-conditioned where k or 1/k is large)");
@@ -451,7 +452,7 @@ int main(int argc, char** argv) {
         }
         std::vector<double> stds = {sp.l1, sp.l2};
         if (albers_south) for (Under& U : forms) {
-          // known finding: AlbersEqualArea::Forward applies _sign twice to the latitude, so on a southern cone it returns the image of -lat
+          // defect found by this check (repaired in /repo, kept as a recognised class): AlbersEqualArea::Forward applied _sign twice to the latitude, so on a southern cone it returned the image of -lat
           U.defect = "albers-south-forward-uses-minus-lat";
           U.defect_image = [O](Lat L, Q lam) { Lat Lm = L; Lm.s = -L.s; return O.fwd(Lm, lam); };
           U.defect_k = [O](Lat L) { Lat Lm = L; Lm.s = -L.s; return O.k(Lm); };
@@ -474,15 +475,16 @@ int main(int argc, char** argv) {
           if (fi > 0) { Axes As; As.lats = {-89, -45, 0, 1e-9, 30, 60, 89.999999999, 90, -90}; As.dlons = {0, 30, -179}; check_same(ctx, E, forms[0], U, O, As, 2e-9Q * (E.a / WGS84_A)); }
         }
         // SetScale on the first form
-        // AlbersEqualArea::SetScale evaluates Forward; on southern cones that is the defective call (known finding).  Probe: is the defect present in this build?
-        bool south_defect_present = false;
+        // AlbersEqualArea::SetScale evaluates Forward; on southern cones that was the defective call.  Probe: is that defect present in this build?
+        bool south_defect_present = false; const Q ascale0 = E.a / WGS84_A;
         if (albers_south && !forms.empty()) {
-          double x, y, g, k; forms[0].fwd(0, sp.l1, 20, x, y, g, k);
-          Lat Lm = L1; Lm.s = -L1.s; Q km = O.k(Lm);
-          south_defect_present = fabsq(Q(k) / Q(k1) - 1) > 1e-9Q && finiteq(km) && fabsq(Q(k) / km - 1) < 1e-9Q;
+          double x, y, g, k; forms[0].fwd(0, -50, 20, x, y, g, k);
+          XY Pt = O.fwd(proj_cf::latd(-50), Q(20) * proj_cf::deg()), Pm = O.fwd(proj_cf::latd(50), Q(20) * proj_cf::deg());
+          Q dt = hypotq(Q(x) - Pt.x, Q(y) - Pt.y), dm = hypotq(Q(x) - Pm.x, Q(y) - Pm.y);
+          south_defect_present = dm < 1e-3Q * ascale0 && dt > 1e3Q * ascale0;       // Forward(-50) is the image of +50
           if (south_defect_present) ctx.list("degraded", "AlbersEqualArea::SetScale on southern-hemisphere cones evaluates the defective Forward (known finding albers-south-forward-uses-minus-lat): all its failures are attributed to that finding");
         }
-        if (!forms.empty()) for (double ls : {-60.0, 0.0, 1e-9, 45.0, 89.0}) for (double ks : {1.0, 0.9}) {
+        if (!forms.empty()) for (double ls : {-89.0, -60.0, 0.0, 1e-9, 45.0, 89.0}) for (double ks : {1.0, 0.9}) {
           mc::Ctx::Case cs0(ctx);
           std::shared_ptr<LambertConformalConic> lc; std::shared_ptr<AlbersEqualArea> al;
           Under U; U.name = forms[0].name + ".SetScale(" + fmt(ls) + "," + fmt(ks) + ")";
@@ -497,7 +499,7 @@ int main(int argc, char** argv) {
           if (south_defect_present) { U.defect = "albers-south-forward-uses-minus-lat"; U.defect_blanket = true; }
           const Q r = Q(ks) / kold;                                 // factor by which SetScale changes the scale
           if (!albers && fabsq(r - 1) > 1e-15Q && Os.n != 0 && fabsq(Os.n) != 1) {
-            // known finding: LambertConformalConic::SetScale rescales _scale and _k0 but not _nrho0 (= n rho0) and _drhomax: Forward then returns
+            // defect found by this check (repaired in /repo, kept as a recognised class): LambertConformalConic::SetScale rescaled _scale and _k0 but not _nrho0 (= n rho0) and _drhomax: Forward then returned
             // (x, y) + (rho0_old - rho0_new) (sin theta, 1 - cos theta)
             U.defect = "lcc-setscale-stale-nrho0"; U.defect_in_reverse = true;
             U.defect_image = [Os, r](Lat L, Q lam) { XY p = Os.fwd(L, lam); Q d = Os.rho0 / r - Os.rho0, th = Os.n * lam; p.x += d * sinq(th); p.y += d * (1 - cosq(th)); return p; };
